@@ -88,6 +88,21 @@ def base_cases(r, tier):
     spec11 = [{"p": "src", "k": "d"}, F("src/a", 100, 301), F("src/b", 5000, 302)] + [{"p": "src/l%d" % k, "k": "l", "target": r.choice(["a", "b", "nowhere"])} for k in range(6)]
     pre11 = [{"p": "dst", "k": "d"}, {"p": "dst/src", "k": "d"}, F("dst/src/a", 7, 303)] + [{"p": "dst/src/l%d" % k, "k": "l", "target": "stale%d" % k} for k in range(6)]
     out.append({"name": "relink-existing-links", "spec": spec11, "pre": pre11, "bs": "4096", "expect_fail": False, "per": 30 if tier == "quick" else 150})
+    # T12: two names of the destination are one file (hard links left by an earlier `cp -l`, or a link to a sibling): two sources
+    # written into it at once would give a schedule-dependent mixture; refused or not, every schedule must end the same way
+    spec12 = [{"p": "src", "k": "d"}, F("src/a", 8192 * 6 + 5, 401, mode=0o644), F("src/b", 8192 * 6 + 5, 402, mode=0o644), F("src/c", 8192 * 4, 403, mode=0o644), F("src/e", 8192 * 4, 404, mode=0o644)]
+    pre12 = [{"p": "dst", "k": "d"}, {"p": "dst/src", "k": "d"}, F("dst/src/a", 10, 405), {"p": "dst/src/b", "k": "hard", "target": "dst/src/a"}]
+    out.append({"name": "hardlinked-destination-names", "spec": spec12, "pre": pre12, "bs": "4096", "expect_fail": False, "per": 24 if tier == "quick" else 120})
+    pre13 = [{"p": "dst", "k": "d"}, {"p": "dst/src", "k": "d"}, F("dst/src/e", 10, 406), {"p": "dst/src/c", "k": "l", "target": "e"}]
+    out.append({"name": "linked-destination-names", "spec": copy.deepcopy(spec12), "pre": pre13, "bs": "4096", "expect_fail": False, "per": 24 if tier == "quick" else 120})
+    # T13: files with several names inside the source (hard links), next to one another in walk order: however the second name is
+    # produced, it must not depend on whether another worker has finished with the first
+    spec14 = [{"p": "src", "k": "d"}, {"p": "src/objects", "k": "d"}]
+    for k in range(8):
+        spec14.append(F("src/objects/blob%d" % k, r.choice([1, 5000, 8192 * 3 + 7]), 500 + k, mode=0o644))
+        spec14.append({"p": "src/objects/alias%d" % k, "k": "hard", "target": "src/objects/blob%d" % k})
+        spec14.append({"p": "src/also%d" % k, "k": "hard", "target": "src/objects/blob%d" % k})
+    out.append({"name": "hardlinked-sources", "spec": spec14, "pre": [], "bs": "4096", "expect_fail": False, "per": 40 if tier == "quick" else 150})
     # T10: the same source named twice under -n: whether a worker has already created the copy when the walker meets the second
     # mention must not decide the exit status
     out.append({"name": "same-source-twice-noclobber", "spec": copy.deepcopy(spec), "pre": [{"p": "dst", "k": "d"}], "bs": "4096", "expect_fail": False, "opts": ["-n"],
